@@ -39,6 +39,16 @@ def cases(rng, tier):
         if rng.below(4) == 0:
             bad = C.Case("repair_window", hdr + [top - 1, 2] + data, tag="malformed")
             cs.append(bad)
+    # one very long window (an in-window offset narrowed to 16 bits wraps beyond 65536 packets)
+    k, t = 6, 1
+    data = CG.rand_data(rng, k * t)
+    hdr = [k * t, t, 1, 1, 1, 0]
+    big_n = 65536 + rng.range(3, 40)
+    bigw = C.Case("repair_window", hdr + [5, big_n] + data, tag="long_window")
+    probes = [0, 1, 65535, 65536, 65537, big_n - 1]
+    bigs = [C.Case("repair_window", hdr + [5 + i, 1] + data) for i in probes]
+    cases.long = (bigw, bigs, probes, k, t)
+    cs += [bigw] + bigs
     for _ in range(10 if tier == "quick" else 100):
         f, t, z, nsub, al = CG.obj_config(rng, 500)
         m = C.Case("enc_packets", [f, t, z, nsub, al, rng.range(0, 4)] + CG.rand_data(rng, f))
@@ -82,6 +92,14 @@ def evaluate(cs, rep, tier):
             po = pk(res[o.key()], t)
             if po is None or po[:-1] != pw[1:]:
                 counter.append({"input": o.impl_line()[:600], "expected": "overlapping windows agree", "observed": "differ", "oracle": "overlap"})
+    if getattr(cases, "long", None):
+        bigw, bigs, probes, k, t = cases.long
+        pw = pk(res[bigw.key()], t)
+        for i, sc in zip(probes, bigs):
+            ps = pk(res[sc.key()], t)
+            if pw is None or ps is None or pw[i] != ps[0]:
+                counter.append({"input": sc.impl_line()[:300] + " vs " + " ".join(bigw.impl_line().split()[:9]), "expected": f"packet {i} of the long window equals the single request", "observed": "differs", "oracle": "window vs singles (long window)"})
+                break
     for c in plain:
         if c.tag == "malformed" and not res[c.key()].startswith("0"):
             counter.append({"input": c.impl_line()[:600], "expected": "an encoding symbol id of 2^24 is refused", "observed": res[c.key()][:60], "oracle": "id limit"})
@@ -104,7 +122,7 @@ def evaluate(cs, rep, tier):
 
 
 def kernel_ok(c):
-    return c.tag not in ("variants",) and c.args[0] <= 14 and len(c.args) < 120
+    return c.tag not in ("variants", "long_window") and c.args[0] <= 14 and len(c.args) < 120
 
 
 def search(rng, rep, tier, disagreements):
